@@ -70,6 +70,10 @@ CLAIMS = {
             "Controlled mode parks one client at each primitive handler call of its command (before Get, between Get and Set, ...) while another client's command is started, exhaustively for all ordered pairs of the nine operation kinds, plus random multi-round sequences; uncontrolled mode runs 2..8 clients on real goroutines against the reference store and the example store. Every recorded history (logical-clock invoke/return stamps) is checked for linearizability.",
             "The recorded history is the reproducible unit (replay re-checks it); whether a forced interleaving materialises depends on a 3 ms scheduling aid that is never used as a verdict. Uncontrolled mode depends on the scheduler.",
             "DESIGN.md 4/C16"),
+    "C15": ("schedule-enumerating property testing: lifecycle sequences x harness-owned schedules at instrumented points (turnstile), exhaustive for short sequences, rapid-drawn beyond; oracle = dial+PING after Start, bind probe / client EOF / registry / goroutine profile after Stop",
+            "Lifecycle call sequences run against real loopback listeners while a turnstile installed at the verif schedule points parks accept loops at their exit, a connection between Accept and registration, connection goroutines before serving, Stop between its phases and Start after opening the listeners; all hold combinations are enumerated for sequences of up to three calls, longer sequences with client churn are drawn from rapid. The controller is event-driven: it waits for the arrivals an action causally guarantees, not for sleeps.",
+            "Port release, client-side closure and registry emptiness are judged at Stop's return with parked goroutines still parked; 'no server goroutine remains' after a 5 s settle budget (a goroutine told to end but not yet scheduled is not a leak). If Stop does not wait for parked loop exits they are released after the next Start (60 ms probe - a scheduling aid, never a verdict).",
+            "DESIGN.md 4/C15"),
 }
 
 PENDING = {
